@@ -76,6 +76,59 @@ def lock_families(backend):
     return f
 
 
+def trap_families(backend):
+    """Targeted generation: exhaustive search for the states in which a subtle window is open."""
+    t = []
+    t.append(dict(fam("trap_%s_reader" % backend, "NF_read", 16, Backend=backend, NKeys=1, ShardOf="<- Shard1", NClients=3,
+                      MaxVer=2, MaxChunks=2, MaxHandles=2, MaxObj=6, Janitor=False, FailStores=True, UpdVals=set(),
+                      Deletes=True), traps={5, 6, 7, 12, 14}))
+    t.append(dict(fam("trap_%s_evict" % backend, "NF_evict2", 18, chunk=1 << 20, lru=True, Backend=backend, NKeys=3,
+                      ShardOf="<- Shard112", NClients=1, MaxVer=2, MaxChunks=2, MaxHandles=0, MaxObj=6, InitLimit=3,
+                      Limits={3}, Janitor=True, UseClock=True, Weight=100, FailStores=False, UpdVals=set(), Deletes=True),
+                  traps={1, 2, 8, 9, 10, 11, 15}))
+    t.append(dict(fam("trap_%s_cleanup" % backend, "NF_one", 14, Backend=backend, NKeys=2, ShardOf="<- Shard12", NClients=2,
+                      MaxVer=2, MaxChunks=1, MaxHandles=0, MaxObj=5, InitLimit=2, Limits={1, 2}, Janitor=True,
+                      FailStores=False, UpdVals={False}, Deletes=False), traps={3, 4, 13}))
+    return t
+
+
+SUFFIX = ([{"a": "jstep"}] * 6 + [{"a": "commit", "p": p} for p in (1, 2, 3) for _ in range(3)] +
+          [{"a": "read", "h": h} for h in (1, 2) for _ in range(3)])
+
+
+def run_traps(f, cap, seed, timeout=60, workers=8):
+    import random
+    consts = consts_of(f)
+    cfg = vlib.cfg_text(dict(consts, Depth=f["depth"], NF="<- " + f["nf"], Bias=False, TrapCap=cap), spec="TrapSpec",
+                        invariants=["Traps"], view="View", constraint="HistBound")
+    traps, st = vlib.tlc_traps("CacheStoreGen", cfg, timeout=timeout, workers=workers)
+    hists, per = [], {}
+    rnd = random.Random(seed)
+    for i in sorted(traps):
+        if i not in f["traps"]:
+            continue
+        hs = traps[i]
+        rnd.shuffle(hs)
+        hs = hs[:cap]
+        per[i] = len(hs)
+        for h in hs:
+            tail = dict(h[-1]) if h else {}
+            suffix = []
+            for stp in SUFFIX:
+                if stp.get("p", 0) > consts["NClients"] or stp.get("h", 0) > consts["MaxHandles"]:
+                    continue
+                x = {"a": stp["a"], "p": stp.get("p", 0), "k": 0, "n": 0, "f": 0, "h": stp.get("h", 0), "e": 0, "l": 0, "r": 0,
+                     "la": tail.get("la", []), "clk": tail.get("clk", 1)}
+                suffix.append(x)
+            hists.append(h + suffix)
+    if not hists:
+        raise vlib.Inconclusive("trap search for %s found no behaviours (rc=%s): %s" % (f["name"], st["rc"], st["tail"][-600:]))
+    r = replay_and_validate(f, hists)
+    r["traps_hit"] = per
+    r["trap_search_states"] = st["distinct"]
+    return r
+
+
 def consts_of(f):
     c = dict(f["consts"])
     c.pop("memPct", None)
@@ -85,8 +138,9 @@ def consts_of(f):
 def run_family(f, num, seed, keep_dir=None):
     """simulate -> replay on the real cache -> validate. Returns a result dict."""
     consts = consts_of(f)
-    gen_cfg = vlib.cfg_text(dict(consts, Depth=f["depth"], NF="<- " + f["nf"], Bias=f["bias"]), spec="GenSpec", invariants=["PrintHist"])
-    hists = vlib.tlc_simulate("CacheStoreGen", gen_cfg, num, f["depth"], seed)
+    gen_cfg = vlib.cfg_text(dict(consts, Depth=f["depth"], NF="<- " + f["nf"], Bias=f["bias"], TrapCap=0), spec="GenSpec", invariants=["PrintHist"])
+    # (some random walks dead-end before Depth and are not printed: ask for more, keep num)
+    hists = vlib.tlc_simulate("CacheStoreGen", gen_cfg, num + num // 2 + 2, f["depth"], seed)[:num]
     return replay_and_validate(f, hists, keep_dir)
 
 
@@ -96,7 +150,7 @@ def driver_config(f):
     return {"backend": consts["Backend"], "shardOf": sm, "shards": f.get("shards") or max(sm),
             "clients": consts["NClients"], "chunk": f["chunk"], "limit": consts["InitLimit"],
             "memPct": consts.get("memPct", 75), "lru": f["lru"], "tickMs": consts["TickMs"],
-            "handles": consts["MaxHandles"], "watchdogMs": 8000}
+            "handles": consts["MaxHandles"], "watchdogMs": 4000}
 
 
 def replay_and_validate(f, hists, keep_dir=None, inp=None):
@@ -125,12 +179,25 @@ def replay_and_validate(f, hists, keep_dir=None, inp=None):
         # a behaviour sample for the evidence file
         b1 = [dict((k, v) for k, v in ln.items() if k not in ("snap", "dump")) for ln in lines if ln.get("b") == 1][:40]
         res["sample"] = b1
+        # a step that never came back is a hang whatever happened before it
+        for idx, ln in enumerate(lines):
+            if ln.get("res") == "hang":
+                b = ln.get("b")
+                beh = inp["behaviours"][b - 1] if b and b - 1 < len(inp["behaviours"]) else []
+                dump = next((x.get("dump", "") for x in lines[idx:idx + 3] if x.get("a") == "hangdump"), "")
+                res["problems"].append({"props": ["C14"], "cats": ["hang"], "line": idx + 1, "behaviour": b, "model": None,
+                                        "event": dict((k, v) for k, v in ln.items() if k not in ("dump", "snap")),
+                                        "context": [dict((k, v) for k, v in x.items() if k not in ("snap", "dump"))
+                                                    for x in lines[max(0, idx - 6):idx]],
+                                        "goroutines": dump[:3000],
+                                        "replay_input": {"family": f["name"], "config": inp["config"], "behaviours": [beh]}})
+                break
         first = None
         if r["bad"]:
             first = ("soft", r["bad"]["line"], r["bad"]["cats"])
         if r["consumed"] < r["total"]:
             ln = lines[r["consumed"]]
-            cat = "hang" if ln.get("res") == "hang" or ln.get("a") == "hangdump" else "struct"
+            cat = "hang" if ln.get("res") in ("hang",) or ln.get("a") == "hangdump" else "struct"
             if first is None or r["consumed"] + 1 < first[1]:
                 first = (cat, r["consumed"] + 1, [cat])
         if first:
